@@ -200,6 +200,8 @@ def run_real(rp, case, scratch):
             if k.startswith(('SLURM_', 'PBS_', 'LSB_', 'COBALT_', 'RADICAL_SMT', 'GPU_DEVICE')):
                 del os.environ[k]
         os.environ['HOME'] = os.path.join(d, 'home')
+        if case.get('radical_smt'):
+            os.environ['RADICAL_SMT'] = str(case['radical_smt'])     # (the job environment carries the level the job was sized with)
         os.environ['PBS_NODEFILE'] = nf
         os.environ['PBS_JOBID'] = '1.x'
         os.environ['LSB_DJOB_HOSTFILE'] = nf
